@@ -2,6 +2,7 @@
    sumbool, sumor map to OCaml's; nat, positive, N stay inductive. *)
 Require Extraction.
 Require Import ExtrOcamlBasic.
-From Atlas Require Import Base.Bytes Dir.DirModel.
+From Atlas Require Import Base.Bytes Dir.DirModel Dir.DirConsumersModel.
 Extraction Language OCaml.
-Extraction "model.ml" files_of newhash marshal unmarshal validate validate_store sum_ignored store_get run_ops s_atlas_sum.
+Extraction "model.ml" files_of newhash marshal unmarshal validate validate_store sum_ignored store_get run_ops s_atlas_sum
+  run executor_pending execute_n execute_to replay migrate_hash.
